@@ -28,10 +28,16 @@ pub struct TransferCase {
     pub seed: u64,
     /// verdict for each attempt's state query: true = received, false = failed
     pub verdicts: Vec<bool>,
+    /// the receive request of this attempt (0-based) is not properly acknowledged:
+    /// kind 0 = no reply, 1 = acknowledgement of another operation, 2 = acknowledgement from another address, 3 = a state report
+    #[serde(default)]
+    pub bad_ack: Option<(usize, u8)>,
 }
 
 struct Recorder {
     own: u16,
+    bad_ack: Option<(usize, u8)>,
+    transfer_requests: usize,
     verdicts: Vec<bool>,
     attempt: usize,
     log: Vec<(M, Option<M>)>,
@@ -48,10 +54,22 @@ impl SignBus for Recorder {
         let reply = match &m {
             M::Hello(_) => Some(M::Report(self.own, S_UNCONFIGURED)),
             M::Req(_, o) => {
+                let mut reply = Some(M::Ack(self.own, *o));
                 if *o == O_RECEIVE_CONFIG || *o == O_RECEIVE_PIXELS {
                     self.last_transfer_op = *o;
+                    if let Some((at, kind)) = self.bad_ack {
+                        if at == self.transfer_requests {
+                            reply = match kind % 4 {
+                                0 => None,
+                                1 => Some(M::Ack(self.own, O_SHOW_LOADED_PAGE)),
+                                2 => Some(M::Ack(self.own ^ 0x0101, *o)),
+                                _ => Some(M::Report(self.own, S_PIXELS_IN_PROGRESS)),
+                            };
+                        }
+                    }
+                    self.transfer_requests += 1;
                 }
-                Some(M::Ack(self.own, *o))
+                reply
             }
             M::Query(_) if after_count => {
                 let ok = self.verdicts.get(self.attempt).copied().unwrap_or(true);
@@ -74,7 +92,7 @@ fn page_dims(chunks: u16) -> (u32, u32) {
 
 pub fn check_transfer(c: &TransferCase, st: &mut Stats) -> Result<(), String> {
     let (sign_type, _, _, sw, sh) = TYPES[c.sign_type as usize % 11];
-    let rec = Rc::new(RefCell::new(Recorder { own: c.addr, verdicts: c.verdicts.clone(), attempt: 0, log: vec![], last_transfer_op: 0 }));
+    let rec = Rc::new(RefCell::new(Recorder { own: c.addr, bad_ack: c.bad_ack, transfer_requests: 0, verdicts: c.verdicts.clone(), attempt: 0, log: vec![], last_transfer_op: 0 }));
     let sign = Sign::new(rec.clone(), Address(c.addr), sign_type);
     // inputs
     let items: Vec<Vec<u8>> = match &c.pages {
@@ -133,7 +151,17 @@ pub fn check_transfer(c: &TransferCase, st: &mut Stats) -> Result<(), String> {
     while i < log.len() && log[i].0 == M::Req(c.addr, op) {
         attempts += 1;
         if log[i].1 != Some(M::Ack(c.addr, op)) {
-            return Err("harness error: recorder did not acknowledge".into());
+            // this receive request was not acknowledged: no data may follow it
+            if let Some((m, _)) = log[i + 1..].iter().find(|(m, _)| matches!(m, M::Data { .. } | M::Count(_))) {
+                return Err(format!(
+                    "attempt {attempts}: the receive request was answered with {:?} instead of its acknowledgement, but the controller went on to send {}",
+                    log[i].1.as_ref().map(|r| r.short()),
+                    m.short()
+                ));
+            }
+            st.class("unacknowledged-request:nothing-sent-afterwards");
+            st.nontrivial(h64(c));
+            return Ok(());
         }
         i += 1;
         let start = i;
@@ -231,8 +259,9 @@ fn case_strategy(max_pages: usize, big: bool) -> impl Strategy<Value = TransferC
         prop_oneof![1 => Just(None), 5 => proptest::collection::vec(size, 0..=max_pages).prop_map(Some)],
         any::<u64>(),
         verdict_strategy(),
+        prop_oneof![4 => Just(None), 1 => (0usize..3, 0u8..4).prop_map(Some)],
     )
-        .prop_map(|(addr, sign_type, pages, seed, verdicts)| TransferCase { addr, sign_type, pages, seed, verdicts })
+        .prop_map(|(addr, sign_type, pages, seed, verdicts, bad_ack)| TransferCase { addr, sign_type, pages, seed, verdicts, bad_ack })
 }
 
 pub fn run(ctx: &Ctx) {
@@ -243,10 +272,13 @@ pub fn run(ctx: &Ctx) {
         let own_chunks = (crate::oracle::page::total_len(w, h) / 16) as u16;
         for (vi, v) in verdicts.iter().enumerate() {
             for addr in [0u16, 3, 0xFFFF] {
-                let c = TransferCase { addr, sign_type: t as u8, pages: None, seed: 0, verdicts: v.clone() };
+                let c = TransferCase { addr, sign_type: t as u8, pages: None, seed: 0, verdicts: v.clone(), bad_ack: None };
                 check_transfer(&c, st).map_err(|m| (serde_json::to_value(&c).unwrap(), m))?;
                 for n in 0..=3usize {
-                    let c = TransferCase { addr, sign_type: t as u8, pages: Some(vec![own_chunks; n]), seed: (t * 10 + vi as u64) as u64, verdicts: v.clone() };
+                    let c = TransferCase { addr, sign_type: t as u8, pages: Some(vec![own_chunks; n]), seed: (t * 10 + vi as u64) as u64, verdicts: v.clone(), bad_ack: None };
+                    check_transfer(&c, st).map_err(|m| (serde_json::to_value(&c).unwrap(), m))?;
+                    // the same transfer with the request of attempt 0 / 1 / 2 not acknowledged, in each of the four ways
+                    let c = TransferCase { bad_ack: Some((vi % 3, (n + vi) as u8)), ..c };
                     check_transfer(&c, st).map_err(|m| (serde_json::to_value(&c).unwrap(), m))?;
                 }
             }
@@ -263,7 +295,7 @@ pub fn run(ctx: &Ctx) {
             2 => vec![1, 4096, 2],
             _ => vec![4095, 4096],
         };
-        let c = TransferCase { addr: 0x0102, sign_type: 5, pages: Some(pages), seed: k, verdicts: vec![k % 2 == 0, true] };
+        let c = TransferCase { addr: 0x0102, sign_type: 5, pages: Some(pages), seed: k, verdicts: vec![k % 2 == 0, true], bad_ack: None };
         check_transfer(&c, st).map_err(|m| (serde_json::to_value(&c).unwrap(), m))
     });
     ctx.part_done("offset-limit", true, json!("pages of 4096 chunks (last offset 65520), alone and next to small pages"));
